@@ -45,12 +45,15 @@ Raw == {[type |-> e[1], decls |-> e[2], place |-> p, annotated |-> TRUE] : e \in
        \cup {[type |-> e[1], decls |-> e[2], place |-> "dual_scope", annotated |-> TRUE] :
                e \in {x \in UNION {Enc(ns) : ns \in NameSets} : Len(x[2]) = 1}}
        \cup {[type |-> Kw("any"), decls |-> <<>>, place |-> "before", annotated |-> FALSE]}
+CtxForms == {"slots2", "destructured", "slots2_destructured"}     \* SetupContext<E, S> / `{ emit }: SetupContext<E>` (beside the plain `ctx: SetupContext<E>`)
 
+RawX == {[ctxform |-> "plain"] @@ r : r \in Raw}
+        \cup {[ctxform |-> cf] @@ r : r \in {x \in Raw : x.place = "before" /\ x.annotated}, cf \in CtxForms}
 CaseSeq ==
-  LET raw == SetToSeq(Raw) IN
+  LET raw == SetToSeq(RawX) IN
   [i \in 1..Len(raw) |->
      [case |-> "C19-" \o ToString(i), prop |-> "C19", lang |-> "tsx", tscase |-> "emits",
-      type |-> raw[i].type, decls |-> raw[i].decls, place |-> raw[i].place, annotated |-> raw[i].annotated,
+      type |-> raw[i].type, decls |-> raw[i].decls, place |-> raw[i].place, annotated |-> raw[i].annotated, ctxform |-> raw[i].ctxform,
       shadow |-> IF raw[i].place = "dual_scope" THEN <<ShadowedE(raw[i].decls[1])>> ELSE <<>>,
       opts |-> [transformOn |-> FALSE, optimize |-> FALSE, mergeProps |-> TRUE, enableObjectSlots |-> TRUE, resolveType |-> TRUE,
                 patterns |-> <<>>, pragma |-> ""]]]
